@@ -18,9 +18,17 @@ func nameMatches(full, pat string) bool {
 	if full == pat {
 		return true
 	}
-	if strings.HasSuffix(full, pat) {
+	if strings.HasSuffix(full, pat) && len(full) > len(pat) {
 		c := full[len(full)-len(pat)-1]
 		return c == '.' || c == '/' || c == '(' || c == ')' || c == '*' || c == ' '
+	}
+	// "(*T).m" names the method m of T in any package: "(*pkg/path.T).m"
+	if strings.HasPrefix(pat, "(*") && strings.HasPrefix(full, "(*") {
+		rest := pat[2:]
+		if strings.HasSuffix(full, rest) && len(full) > len(rest)+2 {
+			c := full[len(full)-len(rest)-1]
+			return c == '.' || c == '/'
+		}
 	}
 	return false
 }
@@ -851,6 +859,8 @@ func (ex *Executor) callWrites(cc *ssa.CallCommon, w map[string]bool) {
 			for _, m := range spec.Modifies {
 				if m.Kind == "call" && m.Name == "big" {
 					w["bigval"] = true
+				} else if n := modFieldMap(sc, m); n != "" {
+					w[n] = true
 				} else {
 					w["*"] = true
 				}
@@ -863,6 +873,32 @@ func (ex *Executor) callWrites(cc *ssa.CallCommon, w map[string]bool) {
 			w[k] = true
 		}
 	}
+}
+
+// modFieldMap: heap map written by a modifies location of the form param.field (direct, non-struct field)
+func modFieldMap(sc *ssa.Function, m *SExpr) string {
+	if m.Kind != "sel" || len(m.Args) != 1 || m.Args[0].Kind != "ident" {
+		return ""
+	}
+	for _, p := range sc.Params {
+		if p.Name() != m.Args[0].Name {
+			continue
+		}
+		pt, ok := p.Type().Underlying().(*types.Pointer)
+		if !ok {
+			return ""
+		}
+		st := structOf(pt.Elem())
+		if st == nil {
+			return ""
+		}
+		idx, emb := findField(st, m.Name)
+		if idx < 0 || emb != nil || isStruct(st.Field(idx).Type()) {
+			return ""
+		}
+		return fieldMapName(pt.Elem(), st.Field(idx).Name())
+	}
+	return ""
 }
 
 func (ex *Executor) havocGlobalsWritten(st *State, fn *ssa.Function, blocks map[*ssa.BasicBlock]bool) {
